@@ -45,7 +45,9 @@ func propC19(w *World, r *Report) {
 	for _, a := range boundsAssumptions {
 		r.Assumes(a)
 	}
-	RunNarrowSucc(w, r, fns, newBoundsRun(w))
+	br19 := newBoundsRun(w)
+	RunTokenProgress(w, r, br19, append([]*ssa.Function{}, fns...), "/opentype/gtab/builder")
+	RunNarrowSucc(w, r, fns, br19)
 	RunNarrowSuccControl(r)
 	r.Floor("goroutine", 2)
 }
